@@ -67,10 +67,13 @@ class Sh:
             return None
         return p
 
-    def compare(self, mode, text, argv, outfile=False):
+    def compare(self, mode, text, argv, outfile=False, crlf=False):
         L = self.lib(text, argv)
         if L is None:
             self.res["inconclusive"] += 1; return
+        if crlf:
+            # the same program as an MS-DOS formatted source: identical behaviour, identical line:column in messages
+            text = text.replace("\n", "\r\n"); bump(self.res, "invocations_crlf_source")
         fn = os.path.join(self.work, "prog.bloc"); open(fn, "wb").write(text.encode("latin-1"))
         of = os.path.join(self.work, "out.txt")
         if os.path.exists(of): os.remove(of)
@@ -127,6 +130,10 @@ class Sh:
             for mode in ("file", "stdin"):
                 self.compare(mode, 'print "start";\n' + t + "\n", r.choice(ARGVS), outfile=r.random() < 0.3)
                 self.compare(mode, t, [], outfile=False)
+        multi = ['s = "line one\nline two\nline three"; print strlen(s); print s;', 'print 1;\nprint 2 /* two\nlines */ + 1;\nprint "a\nb";\nreturn "r\ns";']
+        for t in COMPILE_ERRORS + RUNTIME_ERRORS + RETURNS[:4] + multi:
+            for mode in ("file", "stdin"):
+                self.compare(mode, 'print "start";\n\n' + t + "\n", [], outfile=False, crlf=True)
         for argv in ARGVS:
             for mode in ("file", "stdin"):
                 self.compare(mode, self.ARGPROG + "\n", argv, outfile=False)
